@@ -7,6 +7,8 @@ import (
 	"time"
 
 	"encoding/json"
+	"io"
+	"net"
 
 	"tunnox-core/internal/cloud/configs"
 	"tunnox-core/internal/cloud/models"
@@ -15,6 +17,7 @@ import (
 	"tunnox-core/internal/protocol/session"
 	"tunnox-core/internal/protocol/session/tunnel"
 	"tunnox-core/internal/stream"
+	"tunnox-core/internal/utils/iocopy"
 	"tunnox-core/verifsim/simnet"
 	"tunnox-core/verifsim/simnode"
 	"tunnox-core/verifsim/simrt"
@@ -114,6 +117,9 @@ type c02end struct {
 	stallFor   time.Duration // fault: the reader stops reading for this long ...
 	stallAfter int           // ... once it has received this many bytes
 	srvw       *c02srv       // what the server holds: the server end of the link, observed
+	eofWithData bool
+	tmoEvery    int
+	tun         *simnet.Conn // relay world: the client end of the tunnel link (conn is the application's end of the local link)
 
 	stalled     bool
 	stallStart  time.Duration
@@ -154,6 +160,8 @@ type c02run struct {
 	done      bool
 	done2     bool
 	full      bool
+	relay     bool // relay world: each end is an application behind a real iocopy.Bidirectional relay
+	cwCapable bool // relay world: the tunnel transport can convey a half-close
 	doneCh    chan struct{}
 	counterOf func(e *c02end) int64
 	// fault: the cloud-control store stops answering when the tunnel starts to end
@@ -172,7 +180,27 @@ type c02srv struct {
 	r        *c02run
 	toldAt   time.Duration
 	closedAt time.Duration
+	// Transport flavours the io.Reader contract allows (QUIC streams, TLS, buffered or deadline-driven
+	// readers): data and an error in the same Read. Only in the tunnel phase (active).
+	active      bool
+	eofWithData bool // the final bytes are returned together with io.EOF
+	tmoEvery    int  // every k-th data Read also reports a temporary timeout (0 = never)
+	dataReads   int
+	// an end/failure handed over together with data counts as "told" only once the server has had
+	// the chance to forward that data: when the next Write on the other transport returns
+	toldWithData bool
+	other        *c02srv
 }
+
+// c02tmo is a transient read timeout (net.Error style).
+type c02tmo struct{}
+
+func (c02tmo) Error() string   { return "c02: i/o timeout (transient, returned with data)" }
+func (c02tmo) Timeout() bool   { return true }
+func (c02tmo) Temporary() bool { return true }
+
+// c02noCW is a transport without half-close (WebSocket/KCP/QUIC stream wrappers of the repository have no CloseWrite).
+type c02noCW struct{ net.Conn }
 
 func (s *c02srv) note(err error) {
 	if err == nil || s.toldAt >= 0 {
@@ -186,6 +214,22 @@ func (s *c02srv) note(err error) {
 
 func (s *c02srv) Read(p []byte) (int, error) {
 	n, err := s.Conn.Read(p)
+	if s.active && err == nil && n > 0 {
+		s.dataReads++
+		if s.eofWithData && s.Conn.PeerClosedWrite() && s.Conn.Pending() == 0 {
+			err = io.EOF
+			s.r.w.Fault("eof-with-data")
+		} else if s.tmoEvery > 0 && s.dataReads%s.tmoEvery == 0 {
+			err = c02tmo{}
+			s.r.w.Fault("timeout-with-data")
+		}
+	}
+	if n > 0 && err != nil {
+		if _, tmo := err.(c02tmo); !tmo {
+			s.toldWithData = true
+		}
+		return n, err
+	}
 	s.note(err)
 	return n, err
 }
@@ -193,6 +237,10 @@ func (s *c02srv) Read(p []byte) (int, error) {
 func (s *c02srv) Write(p []byte) (int, error) {
 	n, err := s.Conn.Write(p)
 	s.note(err)
+	if o := s.other; o != nil && o.toldWithData {
+		o.toldWithData = false
+		o.note(io.EOF)
+	}
 	return n, err
 }
 
@@ -203,8 +251,8 @@ func (s *c02srv) Close() error {
 	return s.Conn.Close()
 }
 
-func (r *c02run) newSrv(c *simnet.Conn) *c02srv {
-	return &c02srv{Conn: c, r: r, toldAt: -1, closedAt: -1}
+func (r *c02run) newSrv(e *c02end, c *simnet.Conn, active bool) *c02srv {
+	return &c02srv{Conn: c, r: r, toldAt: -1, closedAt: -1, active: active, eofWithData: e.eofWithData, tmoEvery: e.tmoEvery}
 }
 
 // serverTold is the first moment the server was handed the end/failure of either transport (-1: never).
@@ -372,13 +420,15 @@ func init() {
 			"a write plan and a read plan per end (chunk sizes 1 B .. 256 KiB / everything at once, buffer sizes 1 B .. 1 MiB, delays 0..1 s), BandwidthLimit in {0, 1 KiB/s, 3000 B/s, 10 KiB/s, 20000 B/s, 64 KiB/s, 10 MiB/s}, " +
 			"the segmentation law of each of the four link directions (all/1-byte/1-7/MTU/cuts around 32 KiB/mixed), link buffer capacity (unbounded .. 100 B, back-pressure), when the target attaches (0 .. 25 s after the source, before or after Start, before or after the source's first bytes), " +
 			"and a closing policy per end (graceful = after everything was sent and received (1/2) | close, reset or half-close after the last write | close or reset after k bytes written | close or reset after k bytes received | close or reset at time t). " +
-			"3 of 4 runs use the component world (one real tunnel.Bridge between two simnet links wrapped the way the server wraps tunnel connections, lifecycle body run by a harness task); 1 of 4 uses a fully wired server node where both ends log in as tunnel connections and send TunnelOpen through the real adapter read loop (real startSourceBridge/handleExistingBridge/runBridgeLifecycle, mapping with the drawn BandwidthLimit in the real cloud control). " +
+			"Server-side transport flavour per end (1/2): the last bytes arrive together with io.EOF and/or every k-th data Read also reports a transient timeout (what io.Reader allows and QUIC/TLS/deadline-driven readers do); a slow producer (one chunk per second) in 1/6 of the ends. " +
+			"1 of 4 runs use the relay world: the component world with each end being an application behind a real iocopy.Bidirectional relay wired like client/target_handler.go (local link <-> relay <-> tunnel link <-> bridge), tunnel transport with or without half-close (CloseWrite). " +
+			"2 of 4 runs use the component world (one real tunnel.Bridge between two simnet links wrapped the way the server wraps tunnel connections, lifecycle body run by a harness task); 1 of 4 uses a fully wired server node where both ends log in as tunnel connections and send TunnelOpen through the real adapter read loop (real startSourceBridge/handleExistingBridge/runBridgeLifecycle, mapping with the drawn BandwidthLimit in the real cloud control). " +
 			"Faults: per end (1/3) a consumer stall - the reader stops reading for 90 s or 400 s after k received bytes, usually with a bounded link towards it (the server's write to it blocks) and a trickling writer on the same end; " +
 			"(2/5) a cloud-control/store outage of 120 s or 500 s that begins when the first end closes on an attached tunnel (component world: half of the runs have a cloud-control double behind the outage gate; node world: every storage operation of the node). " +
 			"The two copy goroutines, the lifecycle, SetTargetConnection and the harness peers are interleaved at statement granularity in bridge*.go/server_bridge.go. " +
 			"Non-trivial: bytes of both directions were in flight at the same time, or a limit > 0 paced at least one delivered byte, or the first end to close did so while bytes written by its peer were undelivered to it, or reset/half-closed; distinct = distinct schedule hashes of such runs.",
 		Real: []string{"internal/protocol/session/tunnel Bridge (NewBridge, SetTargetConnection, Start, CopyWithControl, dynamicSourceWriter, Close, traffic counters)", "golang.org/x/time/rate Limiter on the simulated clock",
-			"internal/protocol/session TCPTunnelConnection (CreateTunnelConnection)", "internal/stream default factory StreamProcessor", "internal/utils/iocopy readWriteCloser adapter", "internal/core/dispose",
+			"internal/protocol/session TCPTunnelConnection (CreateTunnelConnection)", "internal/stream default factory StreamProcessor", "internal/utils/iocopy readWriteCloser adapter", "relay world: internal/utils/iocopy Bidirectional (both relays) + client-side StreamProcessor", "internal/core/dispose",
 			"node mode: SessionManager handleTunnelOpen/startSourceBridge/handleExistingBridge/runBridgeLifecycle, BaseAdapter read loop and stream-mode switch, ServerAuthHandler, ServerTunnelHandler + ConnectionCodeService.ValidateMapping, BuiltinCloudControl port-mapping service and periodic traffic report, TunnelRoutingTable, memory storage"},
 		Stub: []string{"transports: simnet links (ordered, loss-free until closed/reset; Close of an end lets the peer drain what was already written)", "clients: scripted writer/reader tasks (node mode: simnode scripted wire-protocol client for login + TunnelOpen)",
 			"the server-side end of each link is handed to the server through a recording wrapper (first non-timeout error returned to the server, time of Close)",
@@ -389,6 +439,9 @@ func init() {
 			"'bounded time' for closure = 35 s of simulated time after (the close and both ends attached) plus 1.5x the time the configured limit needs for the bytes still undelivered at that moment (+64 KiB); readers stop dawdling after the first close; 'forgets' = Bridge.Start returned / the tunnel id left SessionManager's bridge map (polled every 0.5 s, 1 s slack) and the routing record is gone, both server-side transports closed",
 			"closure is a matter between the two ends and the server: the server must close both transports, and a reading peer must see the end, within the bound even while the cloud-control store does not answer; only 'forgets' (bookkeeping) may wait until the store answers again (+ bound)",
 			"a consumer that is not reading is a fault: if such a stall is in progress after the close, the closure clock starts when the server was first handed the end/failure of a transport (a Read/Write on it returned a non-timeout error) or when the last stall ended, whichever is first; the stalled end itself must see the end within the bound after it resumes reading",
+			"a half-close counts as that end closing only where the tunnel transport conveys it to the server (worlds without relays, relay world with CloseWrite); an application's half-close behind a relay whose transport has no CloseWrite (WebSocket/KCP/QUIC wrappers of the repository) closes nothing at the tunnel level, so the bytes flowing towards that application must still all arrive, however long the other direction takes",
+			"relay world: only prefix, completeness, counters and pacing are judged (closure propagation through relays is C12's clause)",
+			"a Read that returns data together with an error (io.EOF or a transient timeout) has delivered that data: it belongs to the stream",
 			"a bandwidth limit of L bytes/s means an end never has received more than L*t + 4*L + 64 KiB bytes at simulated time t (very loose: only gross non-enforcement is flagged)",
 			"bytes an end writes before the other end is attached belong to the tunnel (the server acknowledged the open before the target attaches)",
 			"Bridge.GetBytesSent/GetBytesReceived count bytes handed to the target/source transport: never ahead of it, equal once the bridge has ended",
@@ -410,7 +463,7 @@ func c02Policy(c *simrt.Choice, label string, sendLen, expectLen int, xfer time.
 		p.kind = c02Graceful
 	case 6: // after the last write
 		p.kind, p.k = c02OnSent, sendLen
-		p.act = c.Intn(3, label+".act")
+		p.act = []int{c02ActClose, c02ActReset, c02ActHalf, c02ActHalf}[c.Intn(4, label+".act")]
 	case 7: // in the middle of sending
 		p.kind, p.k = c02OnSent, c.Intn(sendLen+1, label+".k")
 		p.act = c.Intn(2, label+".act")
@@ -480,12 +533,33 @@ func c02Run(w *simrt.World, tier string) {
 	attachBeforeStart := c.Chance(1, 4, "attach.beforeStart") && attachDelay == 0
 	a.waitAttach = c.Chance(1, 3, "A.waitAttach")
 	b.waitAttach = c.Chance(1, 2, "B.waitAttach")
-	full := c.Intn(4, "mode") == 3
+	world := c.Intn(4, "mode") // 0,1 bridge; 2 relay; 3 node
+	full := world == 3
+	relay := world == 2
 	if full {
 		attachBeforeStart = false
 		b.waitAttach = true
 	}
-	r.full = full
+	r.full, r.relay = full, relay
+	r.cwCapable = c.Intn(2, "relay.closewrite") == 1
+	// transport flavour of the server-side ends: data and error in one Read
+	for _, e := range []*c02end{a, b} {
+		switch c.Intn(6, e.name+".readerr") {
+		case 3:
+			e.eofWithData = true
+		case 4:
+			e.tmoEvery = 1 + c.Intn(5, e.name+".readerr.k")
+		case 5:
+			e.eofWithData = true
+			e.tmoEvery = 1 + c.Intn(5, e.name+".readerr.k")
+		}
+	}
+	// a slow producer (one small chunk per second) keeps a direction busy for tens of seconds
+	for _, e := range []*c02end{a, b} {
+		if c.Intn(6, e.name+".trickle") == 5 {
+			e.wplan = c02plan{sizes: []int{len(e.send)/40 + 1}, delays: []time.Duration{time.Second}}
+		}
+	}
 	// faults: a consumer that stops reading for longer than the closure bound (with a bounded link towards it the
 	// server's write to it blocks), and a cloud-control/store outage that begins when the tunnel starts to end
 	stallSet := []time.Duration{0, 0, 0, 0, 90*time.Second + 11*time.Millisecond, 400*time.Second + 17*time.Millisecond}
@@ -533,12 +607,17 @@ func c02Run(w *simrt.World, tier string) {
 	}
 	w.Sample(fmt.Sprintf("limit=%d lenA=%d lenB=%d A{w=%v/%v r=%v/%v pol=%v wait=%v srvlaw=%s clilaw=%s cap=%d} B{w=%v/%v r=%v/%v pol=%v wait=%v srvlaw=%s clilaw=%s cap=%d} attach=%v beforeStart=%v",
 		r.limit, lenA, lenB, a.wplan.sizes, a.wplan.delays, a.rplan.sizes, a.rplan.delays, a.pol, a.waitAttach, simnet.LawNames[cfgA.LawAB], simnet.LawNames[cfgA.LawBA], cfgA.Capacity,
-		b.wplan.sizes, b.wplan.delays, b.rplan.sizes, b.rplan.delays, b.pol, b.waitAttach, simnet.LawNames[cfgB.LawAB], simnet.LawNames[cfgB.LawBA], cfgB.Capacity, attachDelay, attachBeforeStart) + fmt.Sprintf(" full=%v stallA=%v@%d stallB=%v@%d storeStall=%v cc=%v", full, a.stallFor, a.stallAfter, b.stallFor, b.stallAfter, r.storeStallFor, useCC))
-	w.State(fmt.Sprintf("%v/%v%v%v/%s/A%d.%d/B%d.%d/%s%s/att%v", full, a.stallFor > 0, b.stallFor > 0, r.storeStallFor > 0 && useCC, limClass, a.pol.kind, a.pol.act, b.pol.kind, b.pol.act, simnet.LawNames[cfgA.LawAB], simnet.LawNames[cfgB.LawAB], attachDelay > 0))
+		b.wplan.sizes, b.wplan.delays, b.rplan.sizes, b.rplan.delays, b.pol, b.waitAttach, simnet.LawNames[cfgB.LawAB], simnet.LawNames[cfgB.LawBA], cfgB.Capacity, attachDelay, attachBeforeStart) + fmt.Sprintf(" world=%d closewrite=%v readerrA=%v/%d readerrB=%v/%d full=%v stallA=%v@%d stallB=%v@%d storeStall=%v cc=%v", world, r.cwCapable, a.eofWithData, a.tmoEvery, b.eofWithData, b.tmoEvery, full, a.stallFor, a.stallAfter, b.stallFor, b.stallAfter, r.storeStallFor, useCC))
+	w.State(fmt.Sprintf("%d%v/%v%v/%v%v%v/%s/A%d.%d/B%d.%d/%s%s/att%v", world, r.cwCapable && relay, a.eofWithData || b.eofWithData, a.tmoEvery+b.tmoEvery > 0, full, a.stallFor > 0, b.stallFor > 0, r.storeStallFor > 0 && useCC, limClass, a.pol.kind, a.pol.act, b.pol.kind, b.pol.act, simnet.LawNames[cfgA.LawAB], simnet.LawNames[cfgB.LawAB], attachDelay > 0))
 
 	mode := "bridge"
 	if full {
 		mode = "node"
+	} else if relay {
+		mode = "relay"
+		if r.cwCapable {
+			mode = "relay.closewrite"
+		}
 	}
 	w.Probe("mode." + mode)
 	const tunnelID = "tun-c02"
@@ -553,10 +632,42 @@ func c02Run(w *simrt.World, tier string) {
 	var node *simnode.Node
 	if !full {
 		// ---- component world: the server side, wired like startSourceBridge / handleTargetBridge
-		a.conn, a.srv = simnet.NewLink(w, cfgA)
-		b.conn, b.srv = simnet.NewLink(w, cfgB)
+		if !relay {
+			a.conn, a.srv = simnet.NewLink(w, cfgA)
+			b.conn, b.srv = simnet.NewLink(w, cfgB)
+		} else {
+			// application <=local link=> real iocopy.Bidirectional relay (wired like client/target_handler.go)
+			// <=tunnel link=> bridge; the drawn laws/capacity apply to both links of an end
+			for _, e := range []*c02end{a, b} {
+				cfg := cfgA
+				if e == b {
+					cfg = cfgB
+				}
+				var local *simnet.Conn
+				e.conn, local = simnet.NewLink(w, cfg)
+				cfg.NameA, cfg.NameB, cfg.AddrA = "tun"+e.name, "srv"+e.name, "10.3.0."+map[string]string{"A": "1", "B": "2"}[e.name]+":6000"
+				e.tun, e.srv = simnet.NewLink(w, cfg)
+				var tconn net.Conn = e.tun
+				if !r.cwCapable {
+					tconn = c02noCW{e.tun}
+				}
+				sp := stream.NewStreamProcessor(tconn, tconn, w.Ctx)
+				rwc, err := iocopy.NewReadWriteCloser(sp.GetReader(), sp.GetWriter(), func() error {
+					sp.Close()
+					tconn.Close()
+					return nil
+				})
+				if err != nil {
+					w.Violationf("C02:harness:relay", "cannot build the relay's tunnel endpoint: %v", err)
+					return
+				}
+				name := "relay" + e.name
+				w.Spawn(name, func() { iocopy.Bidirectional(local, rwc, &iocopy.Options{LogPrefix: name}) })
+			}
+		}
 		const mappingID = "pm-c02"
-		a.srvw, b.srvw = r.newSrv(a.srv), r.newSrv(b.srv)
+		a.srvw, b.srvw = r.newSrv(a, a.srv, true), r.newSrv(b, b.srv, true)
+		a.srvw.other, b.srvw.other = b.srvw, a.srvw
 		factory := stream.NewDefaultStreamFactory(w.Ctx)
 		spA := factory.CreateStreamProcessor(a.srvw, a.srvw)
 		spB := factory.CreateStreamProcessor(b.srvw, b.srvw)
@@ -630,7 +741,10 @@ func c02Run(w *simrt.World, tier string) {
 			// node.Connect, with the server end handed to the adapter through the observing wrapper
 			cfg.NameA, cfg.NameB = e.name, e.name+"@n1"
 			la, lb := simnet.NewLink(w, cfg)
-			e.srvw = r.newSrv(lb)
+			e.srvw = r.newSrv(e, lb, false)
+			if o := e.peer.srvw; o != nil {
+				e.srvw.other, o.other = o, e.srvw
+			}
 			node.Adapter.Serve(e.srvw)
 			cl := &simnode.Client{W: w, Name: e.name, Conn: la, Srv: lb, SP: stream.NewStreamProcessor(la, la, w.Ctx)}
 			if resp, ok := cl.Login(ctl.ID, ctl.Secret, "tunnel"); !ok || !resp.Success {
@@ -652,6 +766,7 @@ func c02Run(w *simrt.World, tier string) {
 			// already be forwarding, so the server-side write counter itself is not a stable baseline
 			e.connBase, e.srvBase = cl.Conn.BytesWritten(), cl.Conn.BytesRead()
 			e.conn.SetDeadline(dl)
+			e.srvw.active = true // handshake done: the tunnel phase begins
 			return ""
 		}
 		if why := open(a, ctlA, cfgA); why != "" {
@@ -728,7 +843,9 @@ func c02Run(w *simrt.World, tier string) {
 	r.done = true
 
 	// ---- closure clause
-	if x := r.first; x != nil && r.attached && !a.bad && !b.bad {
+	// (not in the relay world: there the tunnel ends are the relays, whose own closing behaviour is under test,
+	// and a transport without half-close cannot convey an application's one-sided end at all)
+	if x := r.first; x != nil && r.attached && !relay && !a.bad && !b.bad {
 		y := x.peer
 		base := x.closedAt
 		if r.attachedAt > base {
@@ -805,8 +922,12 @@ func c02Run(w *simrt.World, tier string) {
 			if e.act == c02ActReset {
 				reset = true
 			}
-			if e.recvAtClose < e.peer.sent {
+			// a half-close that the tunnel transport cannot convey closes nothing at the tunnel level
+			conveyed := e.act != c02ActHalf || !relay || r.cwCapable
+			if e.recvAtClose < e.peer.sent && conveyed {
 				early += e.name
+			} else if e.recvAtClose < e.peer.sent {
+				w.Probe("half-close.not-conveyed.bytes-undelivered")
 			}
 		}
 	}
@@ -814,6 +935,9 @@ func c02Run(w *simrt.World, tier string) {
 		for _, e := range []*c02end{a, b} {
 			if e.recv < e.peer.sent {
 				how := "server-closed"
+				if relay {
+					how = "tunnel-closed"
+				}
 				if e.timedOut || !e.sawEnd && e.closedAt < 0 {
 					how = "stalled"
 				}
@@ -832,6 +956,9 @@ func c02Run(w *simrt.World, tier string) {
 	for _, e := range []*c02end{a, b} {
 		if e.conn != nil && !e.conn.Closed() {
 			e.conn.Close()
+		}
+		if e.tun != nil && !e.tun.Closed() {
+			e.tun.Close() // a relay on a transport without half-close may still be waiting for the tunnel to end
 		}
 	}
 	waitUntil := w.Now() + 40*time.Second
@@ -858,7 +985,7 @@ func c02Run(w *simrt.World, tier string) {
 		if gs, gr := r.br.GetBytesSent(), r.br.GetBytesReceived(); b.srv != nil && (gs != b.srv.BytesWritten()-b.srvBase || gr != a.srv.BytesWritten()-a.srvBase) {
 			w.Violationf("C02:counters:final-mismatch", "bridge ended: BytesSent=%d but %d bytes were handed to the target transport; BytesReceived=%d but %d bytes were handed to the source transport", gs, b.srv.BytesWritten()-b.srvBase, gr, a.srv.BytesWritten()-a.srvBase)
 		}
-	} else if r.first == nil && r.limit == 0 {
+	} else if r.first == nil && r.limit == 0 && !relay {
 		w.Violationf("C02:forget:bridge-still-running:cleanup", "both clients closed their transports at the end of the run and Bridge.Start still had not returned 40 s later")
 	}
 	r.br.Close()
